@@ -126,14 +126,15 @@ def work(arg):
     name, f, cases = arg
     p = zckref.parse(f)
     ext = zckref.extents(p)
-    job = ["file %s" % f.hex()] + ["case mark=%s limit=%d noscan=%d feed=%d" % c + (" fsrc=%s" % fail_source(p, f, c[0]).hex() if "!" in c[0] else "")
-                                    for c in cases]
+    job = ["file %s" % f.hex()] + ["case mark=%s limit=%d noscan=%d feed=%d" % c[:4] + (" fsrc=%s" % fail_source(p, f, c[0]).hex() if "!" in c[0] else "")
+                                    + (" pmark=%s" % c[4] if len(c) > 4 else "") for c in cases]
     cs = core.drv("ranges", "\n".join(job) + "\n", timeout=3000)
     res = {"n": 0, "multi": 0, "viol": [], "outcomes": set(), "exact": 0}
-    for c, (mark, limit, noscan, feed) in zip(cs, cases):
+    for c, cc in zip(cs, cases):
+        mark, limit, noscan, feed = cc[:4]
         res["n"] += 1
         g = c.first("G")
-        case = {"name": name, "tier_gen": None if len(f) < 20000 else name, "file": f.hex() if len(f) < 20000 else None, "mark": mark, "limit": limit, "noscan": noscan, "feed": feed}
+        case = {"name": name, "tier_gen": None if len(f) < 20000 else name, "file": f.hex() if len(f) < 20000 else None, "mark": mark, "limit": limit, "noscan": noscan, "feed": feed, "pmark": cc[4] if len(cc) > 4 else None}
         klass = {"table": name.rstrip("0123456789+dict") if len(f) < 20000 else "large", "none_missing": "0" not in mark and not noscan,
                  "noscan": bool(noscan)}
         if not c.done or g is None:
@@ -216,6 +217,16 @@ def run(ctx):
                 cases.append((mark, lim, 0, 1))
         for lim in LIMITS:
             cases.append(("0" * n, lim, 1, 1))
+        # a second request on the same context after the target changed on disk and was scanned again (every ordered pair of
+        # markings of the smaller tables): nothing of the first request may survive into the second
+        nd = n if has_dict else n - 1
+        if nd <= (3 if ctx.tier == "quick" else 4) and not name.startswith("ones"):
+            ms = [("" if has_dict else "+") + "".join(b) for b in itertools.product("+0", repeat=nd)]
+            for m1 in ms:
+                for m2 in ms:
+                    if m1 != m2:
+                        for lim in (-1, 1, 2):
+                            cases.append((m2, lim, 0, 1, m1))
         # three-valued markings (valid / missing / failed) for the smaller tables
         nd = n if has_dict else n - 1
         if nd <= (5 if ctx.tier == "quick" else (8 if ctx.deep else 7)):
@@ -258,5 +269,5 @@ def replay(case, quiet=True):
                 r = work((name, f, [(case["mark"], case["limit"], case["noscan"], case["feed"])]))
                 return {"violated": bool(r["viol"]), "detail": [v[1] for v in r["viol"]]}
         return {"violated": False, "detail": "unknown large table"}
-    r = work((case["name"], bytes.fromhex(case["file"]), [(case["mark"], case["limit"], case["noscan"], case["feed"])]))
+    r = work((case["name"], bytes.fromhex(case["file"]), [(case["mark"], case["limit"], case["noscan"], case["feed"]) + ((case["pmark"],) if case.get("pmark") else ())]))
     return {"violated": bool(r["viol"]), "detail": [v[1] for v in r["viol"]]}
